@@ -902,7 +902,9 @@ func main() {
 		"(legacy padding form and payloads above 1460 bytes included), RTP reads, RTCP reads, RTCP compound writes against a scripted transport, "+
 		"every handed-in object re-read after the call and after Close; 'inject' cases tap a responder's retransmissions; "+
 		"then a teardown history (UnbindLocalStream / UnbindRemoteStream / Close in any order, streams possibly unbound twice) with the "+
-		"instrumented members' counters snapshotted after every call; "+
+		"instrumented members' counters snapshotted after every call; 'rebind' cases (and a sixth of the random ones) call BindLocalStream "+
+		"again while writing (same SSRC with / without Unbind, a second stream), each binding with a next writer of its own; 'close-dup' cases have "+
+		"members whose Close errors are one value or wrap one another, the Close error is projected entry by entry; "+
 		"non-trivial = at least one member and one operation",
 		[]*cq.Set{set}, extra, fails)
 	_ = os.Stdout
